@@ -97,3 +97,59 @@ Example wire_path_example :
   let segs := [(3, [64512]); (2, []); (2, [65001; 65002]); (1, [65003; 65004]); (4, [7])] in
   wire_path segs /\ hops segs = 3 /\ path_asns segs = [64512; 65001; 65002; 65003; 65004; 7].
 Proof. cbn. split; [|split; reflexivity]. repeat constructor; cbn; lia. Qed.
+
+(* ------------------------------------------------------------------ *)
+(* the rendered path and the origin AS on a wire AS_PATH                *)
+
+Lemma render_segs_enc segs : wire_path segs -> forall fuel,
+  (length segs <= fuel)%nat ->
+  render_segs fuel (enc_path segs) = map (fun s => seg_string (fst s) (snd s)) segs.
+Proof.
+  induction segs as [|s r IH]; intros Hw fuel Hf.
+  - destruct fuel; reflexivity.
+  - inversion Hw as [|? ? Hs Hr]; subst. destruct Hs as (_ & _ & Hn).
+    destruct fuel as [|f]; [cbn in Hf; lia|].
+    rewrite enc_path_cons. cbn [render_segs]. rewrite Nat2N.id.
+    rewrite (take_u32s_enc (snd s) (enc_path r) Hn). cbn [map].
+    rewrite (IH Hr f); [reflexivity|]. cbn [length] in Hf. lia.
+Qed.
+
+Lemma last_nonempty_default {A} (l : list A) : forall x d d', last (x :: l) d = last (x :: l) d'.
+Proof. induction l as [|y l IH]; intros x d d'; [reflexivity|]. cbn [last] in *. apply (IH y d d'). Qed.
+
+Lemma last_cons {A} (s : A) r d : last (s :: r) d = last r s.
+Proof. destruct r as [|x r]; [reflexivity|]. cbn [last]. apply last_nonempty_default. Qed.
+
+Lemma origin_loop_enc segs : wire_path segs -> forall fuel l0,
+  (length segs <= fuel)%nat -> origin_loop fuel (enc_path segs) l0 = last segs l0.
+Proof.
+  induction segs as [|s r IH]; intros Hw fuel l0 Hf.
+  - destruct fuel; reflexivity.
+  - inversion Hw as [|? ? Hs Hr]; subst. destruct Hs as (_ & _ & Hn).
+    destruct fuel as [|f]; [cbn in Hf; lia|].
+    rewrite enc_path_cons. cbn [origin_loop]. rewrite Nat2N.id.
+    rewrite (take_u32s_enc (snd s) (enc_path r) Hn).
+    rewrite (IH Hr f); [|cbn [length] in Hf; lia].
+    rewrite last_cons. destruct s; reflexivity.
+Qed.
+
+(* the text a general as-path pattern is matched against: the segments printed
+   GoBGP style and separated by a space; the origin AS: the last AS of the last
+   segment when that is a non-empty AS_SEQUENCE *)
+Lemma C14_wire_aspath_rendered :
+  forall segs a, wire_path segs -> a_data a = DBin (enc_path segs) ->
+    render_path (enc_path segs) = join [32] (map (fun s => seg_string (fst s) (snd s)) segs) /\
+    as_path_origin a = Ok (let '(t, v) := last segs (0, []) in
+                           if t =? 2 then match rev v with x :: _ => Some x | [] => None end else None).
+Proof.
+  intros segs a Hw E. split.
+  - unfold render_path. rewrite (render_segs_enc segs Hw); [reflexivity|apply enc_path_length].
+  - unfold as_path_origin, attr_binary. rewrite E.
+    rewrite (origin_loop_enc segs Hw); [|apply enc_path_length]. destruct (last segs (0, [])); reflexivity.
+Qed.
+
+Example render_example :
+  render_path (enc_path [(3, [64512]); (2, [65001; 65002]); (1, [65003; 4200000000]); (4, [7]); (2, [])])
+  = [40; 54; 52; 53; 49; 50; 41; 32; 54; 53; 48; 48; 49; 32; 54; 53; 48; 48; 50; 32; 123; 54; 53; 48; 48; 51; 44;
+     52; 50; 48; 48; 48; 48; 48; 48; 48; 48; 125; 32; 91; 55; 93; 32].
+Proof. vm_compute. reflexivity. Qed.
